@@ -227,7 +227,7 @@ EXT_FUNCS = ["random", "length", "offset", "rect", "point", "script", "objectp",
              "count2", "soundBusy", "window", "birth2", "myFunc", "otherFunc"]
 EXT_CMDS = ["put", "beep", "updateStage", "puppetTempo", "installMenu", "addProp", "deleteProp", "open", "nothing", "pause",
             "go", "alert", "doIt", "append", "return"]
-SYMS = ["name", "surname", "StackUnderflow", "alpha", "beta", "mname", "mget", "zz9"]
+SYMS = ["name", "surname", "StackUnderflow", "alpha", "beta", "mname", "mget", "zz9", "loop", "next", "stop", "close"]
 METHODS = ["mReset", "mPush", "mPop", "mget", "mput", "mname", "mShow"]
 STRINGS = ["", "a", "hello", "Hello world!", "x y", "it's", "100%", "a,b;c", "(paren)", "[br]", "#hash", "-- not a comment", "- -",
            "val=", "3.5", "the of to", "end", "\r", "\t", "\x08", "\x03", "\""]
@@ -322,7 +322,7 @@ class Gen:
             return ["fld", self.expr(env, d)]
         if c < 0.56:
             f = r.choice(EXT_FUNCS + [h for h in self.handlers][:3])
-            n = r.choice([0, 1, 1, 2, 3]) if f in self.handlers else r.choice([1, 1, 2, 3])
+            n = r.choice([0, 1, 1, 2, 3])
             return ["c", f] + [self.expr(env, d) for _ in range(n)]
         if c < 0.60:
             return ["m", self.receiver(env), r.choice(METHODS)] + [self.expr(env, d) for _ in range(r.choice([0, 1, 2]))]
@@ -447,11 +447,9 @@ class Gen:
         """a global referenced by name (`46 n`): normally one declared at script level; rarely one that only this handler declares
         (the handler's own globals table names it, see feature F120)"""
         r = self.rng
-        if self.globals_hdr and r.random() < 0.9:
+        if self.globals_hdr and r.random() < 0.5:
             return ["g", r.choice(self.globals_hdr)]
-        if r.random() < 0.3:
-            return ["g", r.choice(env["globals"])]
-        return None
+        return ["g", r.choice(env["globals"])]
 
     def receiver(self, env):
         r = self.rng
@@ -484,10 +482,12 @@ class Gen:
             return ["put", mode, v, ["l", r.choice(env["locals"])]]
         return ["put", mode, v, self.chunk(env, 1, self.put_base(env), target=True)]
 
-    def tell_stmt(self, env, depth):
+    def tell_stmt(self, env, depth, nest=0):
         r = self.rng
         body = [self.stmt(env, depth, in_tell=True) for _ in range(r.choice([1, 2, 3]))]
         body = [b for b in body if not (isinstance(b, list) and b[0] == "mcall")] or [["call", "updateStage"]]
+        if nest < 2 and r.random() < 0.25:
+            body.insert(r.randrange(len(body) + 1), self.tell_stmt(env, depth, nest + 1))
         return ["tell", ["c", "window", ["s", S(r.choice(["tour", "tool"]))]]] + body
 
     # ---- handlers / scripts
@@ -625,6 +625,10 @@ def local_order(body):
     return out
 
 
+# defect classes repaired in /repo (fix: commits): their programs are ordinary inputs now, no matcher covers them
+FIXED_FEATURES = {"F21", "F22", "F39", "F120", "F121", "F122", "F124", "F125"}
+
+
 def features(h, script_globals=(), handler_names=()):
     """root-cause features of one handler tree (used by the narrow matchers of the open findings)"""
     f = set()
@@ -685,7 +689,7 @@ def features(h, script_globals=(), handler_names=()):
             f.add("F122")
         if tag == "op" and isinstance(t[2], list) and t[2][0] == "i" and t[2][1] >= 32768:
             f.add("F121")
-    return sorted(f)
+    return sorted(x for x in f if x not in FIXED_FEATURES)
 
 # ------------------------------------------------------------------------------------------------ C03: control-flow skeletons
 # skeleton item: "s" (simple statement) | "x" (exit repeat) | (kind, body) | ("ifelse", then_body, else_body)
